@@ -1154,6 +1154,73 @@ impl Zoo {
             })?;
             answered += ok;
         }
+        // ---- the same requests, fragmented.  Reassembly state left behind by the sequence may
+        // legitimately occupy every slot until it times out (60 s), so the clock is moved past
+        // that first; from then on a fragmented request is a well-formed request like any other.
+        self.now += 65_000_000;
+        let idle = Ev { at: self.now, frames: vec![], mode: PollMode::Poll, label: "probe:idle-65s".into() };
+        match self.step(idle) {
+            Ok(_) => {}
+            Err(StepFail::Panic(p)) => return Err((semantic_sig(&p), format!("panic in the idle poll before the fragmented probe at {}:{}: {}", p.file, p.line, p.msg))),
+            Err(StepFail::TxStorm(n)) => return Err((format!("no-return:{}:tx-cap", self.cfg.med.name()), format!("{} frames in one poll before the fragmented probe", n))),
+        }
+        if let (Some(our4), true) = (cfg.v4(), cfg.med != Med::Lowpan) {
+            let (src, dst) = (Addr::V4(PROBE.v4.octets()), Addr::V4(our4.octets()));
+            let seq = self.next_seq();
+            let mut icmp = vec![8u8, 0, 0, 0, 0x77, 0x78, (seq >> 8) as u8, seq as u8];
+            icmp.extend_from_slice(&token);
+            let c = cksum::checksum(&[&icmp]);
+            indep::put16(&mut icmp, 2, c);
+            let whole = indep::ip::build_v4(&PROBE.v4.octets(), &our4.octets(), 1, 64, 0x7000 | seq, false, false, 0, &icmp);
+            let mut frames = Vec::new();
+            // second fragment first: the stack has to hold it until the first one arrives
+            for (off, mf, part) in [(8usize, false, &whole[28..]), (0usize, true, &whole[20..28])] {
+                let f = indep::ip::build_v4(&PROBE.v4.octets(), &our4.octets(), 1, 64, 0x7000 | seq, false, mf, off, part);
+                frames.extend(crate::gen::frames::link_wrap_plain(&cfg, &PROBE, &f));
+            }
+            let med = cfg.med;
+            let ok = self.probe_round("icmpv4-echo-fragmented", frames, &|t: &[u8]| {
+                let p = match med {
+                    Med::Eth => {
+                        if t.len() < 14 || t[0..6] != *PROBE.mac.as_bytes() || indep::be16(t, 12) != 0x0800 {
+                            return false;
+                        }
+                        &t[14..]
+                    }
+                    _ => t,
+                };
+                let Ok(info) = indep::ip::parse(p, true) else { return false };
+                if info.proto != 1 || info.src != dst || info.dst != src || info.frag_offset != 0 || info.more_frags {
+                    return false;
+                }
+                let m = &p[info.payload_off..info.payload_off + info.payload_len];
+                m.len() == 24 && m[0] == 0 && m[1] == 0 && (!ck || (cksum::verifies(&[m]) && info.v4_header_ok)) && m[4..6] == [0x77, 0x78] && indep::be16(m, 6) == seq && m[8..] == token
+            })?;
+            answered += ok;
+        }
+        if let (Some(our6), true) = (cfg.v6().first().copied(), cfg.med == Med::Lowpan) {
+            let p6 = cfg.peer6_for(&PROBE, our6);
+            let (src, dst) = (Addr::V6(p6.octets()), Addr::V6(our6.octets()));
+            let seq = self.next_seq();
+            let mut icmp = vec![128u8, 0, 0, 0, 0x77, 0x78, (seq >> 8) as u8, seq as u8];
+            icmp.extend_from_slice(&token);
+            cksum::transport_fill(&src, &dst, 58, &mut icmp, 2);
+            let pkt = indep::ip::build(&src, &dst, 58, 64, &icmp);
+            let mut o = crate::gen::frames::LpOpts::plain(&cfg);
+            o.force_frag = true;
+            o.tag = 0x7000 | seq;
+            let frames = crate::gen::frames::link_wrap(&cfg, &PROBE, &pkt, &o);
+            if frames.len() >= 2 {
+                let ok = self.probe_round("icmpv6-echo-fragmented", frames, &|t: &[u8]| {
+                    if t.len() < 24 {
+                        return false;
+                    }
+                    let m = &t[t.len() - 24..];
+                    m[0] == 129 && m[1] == 0 && m[4..6] == [0x77, 0x78] && indep::be16(m, 6) == seq && m[8..] == token && (!ck || cksum::transport_verifies(&dst, &src, 58, m))
+                })?;
+                answered += ok;
+            }
+        }
         Ok(answered)
     }
 
